@@ -392,3 +392,85 @@ def scratch_columns(chk, prog, rule: str) -> int:
             else:
                 chk.ok(rule, where, construct, f"'{col}' is a column of a frame the model built itself / restricted to the required columns")
     return n
+
+
+
+_LABEL_EXAMPLE = """
+def f(weather_df, pl_date):
+    pre_planting = weather_df.Date < pl_date
+    weather_df = weather_df.drop(weather_df.index[pre_planting])
+    later = weather_df.loc[weather_df.index[3:]]
+    cols = weather_df.drop(["Day"], axis=1)
+    w2 = weather_df.copy()
+    w2.index = w2.Date
+    ok = w2.loc[w2.index[2:]]
+    return weather_df
+"""
+
+
+def _label_sites(fn_node, formal):
+    """(node, frame name, what, frame index set from Date in this function) for label-based row operations on frames derived from `formal`"""
+    frames = {formal}
+    changed = True
+    while changed:
+        changed = False
+        for a in walk_no_nested(fn_node):
+            if isinstance(a, ast.Assign) and isinstance(a.targets[0], ast.Name) and a.targets[0].id not in frames:
+                v = a.value
+                while isinstance(v, (ast.Call, ast.Attribute, ast.Subscript)):
+                    v = v.func if isinstance(v, ast.Call) else v.value
+                if isinstance(v, ast.Name) and v.id in frames and not (isinstance(a.value, ast.Subscript) and isinstance(a.value.slice, ast.Constant)):
+                    frames.add(a.targets[0].id); changed = True
+    date_indexed = {a.targets[0].value.id for a in walk_no_nested(fn_node)
+                    if isinstance(a, ast.Assign) and isinstance(a.targets[0], ast.Attribute) and a.targets[0].attr == "index" and isinstance(a.targets[0].value, ast.Name)
+                    and any(isinstance(x, ast.Attribute) and x.attr == "Date" for x in ast.walk(a.value))}
+    def uses_index(e):
+        return any(isinstance(x, ast.Attribute) and x.attr == "index" and isinstance(x.value, ast.Name) and x.value.id in frames for x in ast.walk(e))
+    out = []
+    for c in walk_no_nested(fn_node):
+        site = None
+        if isinstance(c, ast.Call) and isinstance(c.func, ast.Attribute) and c.func.attr == "drop" and isinstance(c.func.value, ast.Name) and c.func.value.id in frames:
+            # dropping columns (axis=1 / columns=) is not a row operation
+            if any(k.arg == "columns" for k in c.keywords) or any(k.arg == "axis" and isinstance(k.value, ast.Constant) and k.value.value in (1, "columns") for k in c.keywords):
+                continue
+            site = (c, c.func.value.id, "drop by index labels")
+        elif isinstance(c, ast.Subscript) and isinstance(c.value, ast.Attribute) and c.value.attr == "loc" and isinstance(c.value.value, ast.Name) \
+                and c.value.value.id in frames and isinstance(c.ctx, ast.Load) and uses_index(c.slice):
+            site = (c, c.value.value.id, "selection by index labels")
+        elif isinstance(c, ast.Subscript) and isinstance(c.value, ast.Name) and c.value.id in frames and isinstance(c.ctx, ast.Load) and uses_index(c.slice):
+            site = (c, c.value.id, "selection by a test on index labels")
+        if site is not None:
+            out.append(site + (site[1] in date_indexed,))
+    return out
+
+
+def label_row_ops(chk, prog, rule: str) -> int:
+    """rows of the weather frame are never removed or selected through the labels of the user's index: `F.drop(F.index[mask])`,
+    `F.drop(labels)`, `F.loc[F.index[...]]`, `F[F.index.isin(...)]` act on every row that carries one of the labels - with repeated labels
+    (yearly tables concatenated without ignore_index, a day-of-year index) rows of other days go too. Accepted: boolean masks on columns,
+    `.iloc`, and label operations on a frame whose index was set from its own Date column in the same function (`F.index = F.Date`).
+    Expected count on a healthy tree is zero: the matcher is run on an embedded positive example first."""
+    ex = _label_sites(ast.parse(_LABEL_EXAMPLE).body[0], "weather_df")
+    if sorted((w, d) for _, _, w, d in ex) != [("drop by index labels", False), ("selection by index labels", False), ("selection by index labels", True)]:
+        raise AnalysisError(f"{rule}: the matcher no longer recognises its positive example ({[(w, d) for _, _, w, d in ex]})")
+    n = 0
+    for key, formal in sorted(weather_frame_formals(prog)):
+        fi = prog.funcs[key]
+        where = f"{fi.module}:{fi.qualname}"
+        from ..rdef import flow_of
+        flow = flow_of(fi)
+        idx_sets = [(a.targets[0].value.id, flow.stmt_node.get(id(a))) for a in walk_no_nested(fi.node)
+                    if isinstance(a, ast.Assign) and isinstance(a.targets[0], ast.Attribute) and a.targets[0].attr == "index" and isinstance(a.targets[0].value, ast.Name)
+                    and any(isinstance(x, ast.Attribute) and x.attr == "Date" for x in ast.walk(a.value))]
+        for node, fr, what, dated in _label_sites(fi.node, formal):
+            # the index assignment must dominate the site (another branch's assignment does not count)
+            sn = flow.node_of(node)
+            dated = dated and sn is not None and any(f_ == fr and k is not None and k in flow.cfg.dominators()[sn] for f_, k in idx_sets)
+            n += 1
+            chk.fn(key)
+            if dated:
+                chk.ok(rule, where, norm(node)[:90], "the frame's index was set from its Date column in this function: labels are dates")
+            else:
+                chk.violation(rule, where, norm(node)[:90], f"{what} of the user's weather index: with repeated labels every row sharing a label is affected - days of other "
+                              "years vanish from the temperature series the crop calendar is built from", loc=fi.loc(node))
+    return n
